@@ -56,6 +56,12 @@ func (t ConfigureTransition) do(env *Environment) (err error) {
 
 	activeTasks := workflow.GetActiveTasks(wf)
 
+	if len(activeTasks) == 0 {
+		// nothing to configure: no message goes to the task manager, so no state change event would ever come back
+		env.sendEnvironmentEvent(&event.EnvironmentEvent{EnvironmentID: env.Id().String(), State: "CONFIGURED"})
+		return
+	}
+
 	if len(activeTasks) != 0 {
 		// err = t.taskman.ConfigureTasks(env.Id().Array(), tasks)
 		taskmanMessage := task.NewEnvironmentMessage(taskop.ConfigureTasks, env.Id(), activeTasks, nil)
